@@ -123,8 +123,15 @@ func (p *Prog) RadixPolicy(fn *ssa.Function) Policy {
 	case "(*origins.node).add", "(*origins.node).upsertEdge", "(*origins.node).elems":
 		return PolEffect
 	}
-	if strings.HasPrefix(funcName(fn), "origins.insert") {
+	if isInsertCtor(funcName(fn)) {
 		return PolPure
 	}
 	return p.DefaultPolicy(fn)
+}
+
+// isInsertCtor: the constructor "s with v inserted at index i" — the module's
+// own generic helper or the standard library's slices.Insert (both shift in
+// place when capacity allows and otherwise reallocate).
+func isInsertCtor(name string) bool {
+	return strings.HasPrefix(name, "origins.insert") || name == "slices.Insert" || strings.HasPrefix(name, "slices.Insert[")
 }
